@@ -60,7 +60,10 @@ def post(drawn, out, sizes, N, jdd, call):
     for v, row in enumerate(out):
         if not isinstance(row, tuple): raise Violation("JointDegree.handshaking_lemma.rows_are_tuples", f"entry {v} is {row!r}")
         if len(row) != T or any((not isinstance(x, int)) or x < 0 for x in row): raise Violation("JointDegree.handshaking_lemma.rowlen", f"entry {v} is {row!r}")
-        if any(row[c] < drawn[v][c] for c in range(T)): raise Violation("JointDegree.handshaking_lemma.never_removed", f"entry {v}: drawn {drawn[v]} returned {row}")
+    # "differs from N weighted draws only by added stubs, never a removal": the ORDER of the returned sequence is not part of the statement -- some matching of the returned
+    # entries with the drawn ones must dominate them entry by entry (N <= 4 here: all matchings are tried)
+    if not any(all(out[v][c] >= drawn[pi[v]][c] for v in range(N) for c in range(T)) for pi in itertools.permutations(range(N))):
+        raise Violation("JointDegree.handshaking_lemma.never_removed", f"drawn {drawn} returned {out}: no assignment of returned entries to drawn ones without a removal")
     for c in range(T):
         c0 = sum(r[c] for r in drawn); c1 = sum(r[c] for r in out); d = (sizes[c] - c0 % sizes[c]) % sizes[c]
         if c1 % sizes[c] != 0: raise Violation("JointDegree.handshaking_lemma.divisible", f"topology {c}: total {c1} not divisible by {sizes[c]} (drawn {drawn} -> {out})")
